@@ -28,6 +28,7 @@ def main():
         return 2
     root = os.path.join(VERIF, "seeded")
     ids = args or sorted(d for d in os.listdir(root) if os.path.isfile(os.path.join(root, d, "patch.diff")))
+    ids = [i for i in ids if os.path.isfile(os.path.join(root, i, "meta.json"))]
     man = json.load(open(os.path.join(VERIF, "MANIFEST.json")))
     cmds = {c["property_id"]: c["quick_cmd" if tier == "quick" else "thorough_cmd"] for c in man["checks"]}
     resfile = os.path.join(root, "RESULTS.json")
